@@ -103,8 +103,9 @@ def _rescale(val, shift, n_frac, exact=False):
     """
     if shift < 0:
         return utils.scale_raw(val, shift, exact=exact)
-    precision_cast = (lambda m: np.array(m, dtype=object)) if n_frac >= _n_word_max else (lambda m: m)
-    return val * precision_cast(2**shift)
+    if n_frac >= _n_word_max:
+        return val * np.array(2**shift, dtype=object)
+    return utils.scale_raw(val, shift)      # (Python integers when the scaled value does not fit in 63 bits)
 
 def _needs_exact_sum(x, y, n_frac):
     """
